@@ -391,7 +391,7 @@ def r5_value_untouched(ctx):
         de = [bb for bb, t in b.calls() if (callee(t) or '').startswith('serde_path_to_error::') and (callee(t) or '').endswith('::deserialize') or (callee(t) or '').endswith('Deserialize::deserialize')]
         end = [bb for bb, t in b.calls() if (callee(t) or '').startswith('serde_json::de::Deserializer') and (callee(t) or '').endswith('::end')]
         # every Ok(..) built after the value was deserialized (the function's result, or that of the private helper it was moved into)
-        oks = [bb for bb, j, st in b.all_assigns() if st['rv']['k'] == 'agg' and st['rv'].get('var') == 'Ok'
+        oks = [bb for bb, j, st in b.all_assigns() if st['rv']['k'] == 'agg' and st['rv'].get('var') == 'Ok' and 'inl' not in st
                and strip_generics(st['rv'].get('adt', '')) == 'core::result::Result' and de and bb in b.reachable(b.succ(de[0]))]
         ok = bool(de) and bool(end) and bool(oks) and all(b.dominates(end[0], o) for o in oks) and b.dominates(de[0], end[0])
         ctx.ob('C15.R5', 'json-document-consumed-entirely', ok, b.loc(de[0]) if de else b.loc(),
